@@ -24,7 +24,11 @@ def gen_case(seed, k, cap):
         ts.append("Copy")
     ts += rng.sample(["Debug", "PartialEq", "Hash", "Default"], rng.randint(0, 1))
     rng.shuffle(ts)
-    td = G.random_type(rng, ts, G.Opts(p_attr=0.9, max_fields=4, max_variants=4, p_partial=0.3, p_repr=0.3))
+    # half of the Copy types carry no custom clone method anywhere: clone has to be the bitwise copy then, in every bound mode
+    avoid = {"copy_enum_method"} if copy and rng.random() < 0.5 else set()
+    td = G.random_type(rng, ts, G.Opts(p_attr=0.9, max_fields=4, max_variants=4, p_partial=0.3, p_repr=0.3, avoid=avoid))
+    if avoid and not td.params and rng.random() < 0.5:
+        td.tsem.setdefault("Clone", {})["bound"] = rng.choice([("none",), ("none",), ("all",)])
     text = S.render(td, rng_for(seed, PROP, "spell", k), extras=False)
     vals = S.values(td, cap, rng)
     drive = ["        %sdrive_clone(\"c%d\", %d, &mk);" % (RT, k, len(vals))]
